@@ -25,7 +25,8 @@ META = {
         "(builtins, os/subprocess functions, already-imported and never-imported canary modules, cobald classes, "
         "not-yet-imported stdlib modules) x positions (document root, extra section, pipeline element, inside the "
         "arguments of a lazily and of an eagerly evaluated registered tag in mapping and sequence form, nested two "
-        "levels deep, behind an anchor/alias, as a mapping key, inside the logging section); quick runs a seeded "
+        "levels deep, behind an anchor/alias, as a key of a plain mapping and of the mapping directly under a lazy / eager "
+        "registered tag, as the value of a merge key, inside the logging section); quick runs a seeded "
         "slice of the product, thorough all of it. Non-trivial = every hostile document; distinct by text."
     ),
     "assumptions": [
@@ -35,7 +36,7 @@ META = {
     "shard_timeout": {"quick": 300, "thorough": 1800},
 }
 
-COLD_MODULES = ["vcanary_cold", "ftplib", "wave", "mailbox"]
+COLD_MODULES = ["vcanary_cold", "vcold_pkg", "ftplib", "wave", "mailbox", "wsgiref", "dbm"]
 
 
 # ------------------------------------------------------------------------------ the product
@@ -43,11 +44,12 @@ def hostile_nodes():
     """(label, yaml text of one hostile node) - flow style, usable at any position."""
     nodes = []
     callables = ["os.system", "subprocess.check_output", "subprocess.Popen", "builtins.eval", "builtins.exec", "os.getcwd",
-                 "vcanary.fire", "vcanary_cold.fire", "builtins.print", "builtins.open", "ftplib.FTP", "builtins.__import__"]
+                 "vcanary.fire", "vcanary_cold.fire", "builtins.print", "builtins.open", "ftplib.FTP", "builtins.__import__",
+                 "vcold_pkg.sub.fire", "wsgiref.simple_server.make_server"]
     classes = ["vcanary.Boom", "cobald.controller.linear.LinearController", "builtins.dict", "collections.OrderedDict",
-               "vplug.VPool", "cobald.daemon.runners.service.ServiceRunner", "wave.Wave_read", "vcanary_cold.IMPORTED"]
+               "vplug.VPool", "cobald.daemon.runners.service.ServiceRunner", "wave.Wave_read", "vcanary_cold.IMPORTED", "vcold_pkg.sub.Boom"]
     names = callables + classes + ["vcanary.SENTINEL", "os.environ", "sys.modules"]
-    modules = ["os", "sys", "subprocess", "vcanary", "vcanary_cold", "mailbox", "cobald.daemon"]
+    modules = ["os", "sys", "subprocess", "vcanary", "vcanary_cold", "mailbox", "cobald.daemon", "vcold_pkg.sub", "dbm.dumb"]
     for c in callables:
         nodes.append(("apply-list:" + c, "!!python/object/apply:%s ['echo verif-canary']" % c))
         nodes.append(("apply-map:" + c, "!!python/object/apply:%s {args: ['echo verif-canary'], kwds: {}}" % c))
@@ -76,7 +78,7 @@ def hostile_nodes():
     nodes.append(("handle-name", "!py!name:os.system ''"))
     nodes.append(("handle-module", "!py!module:vcanary_cold ''"))
     # unregistered application tags
-    for t in ["NoSuchPlugin", "vcanary.fire", "vcanary_cold.fire", "os.system", "subprocess.getoutput", "LinearController2",
+    for t in ["NoSuchPlugin", "vcanary.fire", "vcanary_cold.fire", "vcold_pkg.sub.fire", "os.system", "subprocess.getoutput", "LinearController2",
               "cobald.controller.linear.LinearController", "vplug.VPool", "VPoolX", "linearcontroller", "python/name:os.system"]:
         nodes.append(("untagged-list:" + t, "!%s [1]" % t))
         nodes.append(("untagged-map:" + t, "!%s {a: 1}" % t))
@@ -98,10 +100,14 @@ POSITIONS = {
     "type_element_arg": "pipeline:\n  - {__type__: vplug.VDeco, a: %(h)s}\n  - !VPool\n",
     "anchored": "pipeline:\n  - !VDeco {a: &anc %(h)s, b: *anc}\n  - !VPool\n",
     "mapping_key": "pipeline:\n  - !VPool\nvextra: {? %(h)s : value}\n",
+    "lazy_tag_mapping_key": "pipeline:\n  - !VDeco {? %(h)s : 1}\n  - !VPool\n",
+    "eager_tag_mapping_key": "pipeline:\n  - !VDeco\n  - !VPoolNow {? %(h)s : 1}\n",
+    "merge_value": "pipeline:\n  - !VPool {<<: %(h)s, b: 2}\n",
     "logging_section": "logging: {version: 1, x: %(h)s}\npipeline:\n  - !VPool\n",
     "shipped_tag_arg": "pipeline:\n  - !LinearController {rate: %(h)s}\n  - !VPool\n",
 }
 BENIGN = "!VSnapLazy {ok: 1}"
+KEY_POSITIONS = ("mapping_key", "lazy_tag_mapping_key", "eager_tag_mapping_key")
 
 
 def all_cases():
@@ -239,17 +245,23 @@ def run_product(spec, result):
             problems.append("canaries fired: %s" % sorted(set(can.events)))
         # the benign twin must load: "everything is rejected" cannot pass
         hostile = hostile_nodes_by_label()[case["label"]]
-        twin = case["text"].replace(hostile, BENIGN if case["position"] not in ("root", "pipeline_element", "pipeline_tail", "mapping_key", "shipped_tag_arg") else
-                                    {"root": "{pipeline: [!VPool ]}", "pipeline_element": "!VDeco", "pipeline_tail": "!VPool", "mapping_key": "plainkey", "shipped_tag_arg": "2"}[case["position"]])
+        special = {"root": "{pipeline: [!VPool ]}", "pipeline_element": "!VDeco", "pipeline_tail": "!VPool", "mapping_key": "plainkey",
+                   "lazy_tag_mapping_key": "plainkey", "eager_tag_mapping_key": "plainkey", "shipped_tag_arg": "2", "merge_value": "{a: 1}"}
+        twin = case["text"].replace(hostile, special.get(case["position"], BENIGN))
         vplug.reset()
         try:
             load_text(twin)
             result.count("benign_twins_loaded")
         except Exception as e:  # noqa: B902
             result.inconc("benign twin of %s/%s does not load: %r\n%s" % (case["label"], case["position"], e, twin))
+        mech = None
+        if case["position"] == "merge_value" and err is None and not can.events:
+            # PyYAML flattens the value of a merge key without ever looking at its tag: the document
+            # loads, the tag is ignored, nothing is constructed
+            mech = "C18/merge-value-tag-ignored"
         for p in problems:
             clean = {k: v for k, v in spec.items() if k != "only_case"}
-            result.violation("%s at %s: %s\n%s" % (case["label"], case["position"], p, case["text"]), case, None, spec=clean, case_id=i)
+            result.violation("%s at %s: %s\n%s" % (case["label"], case["position"], p, case["text"]), case, mech, spec=clean, case_id=i)
 
 
 _BY_LABEL = None
